@@ -198,6 +198,14 @@ def _for_over(I, s, st, itv, ctx):
 
 def _for_zip(I, s, st, zargs, ctx):
     known = [iter_items(I, st, a) for a in zargs]
+    if len(zargs) == 2 and all(k is None for k in known) and all(isinstance(a, Sym) for a in zargs):
+        # zip of two symbolic tuple/list values of (provably) equal length: index-based rule
+        a, b = zargs[0].t, zargs[1].t
+        ok = z3.And(I.U.has_type(a, ["tuple", "list"]), I.U.has_type(b, ["tuple", "list"]), vm.tlen(a) == vm.tlen(b))
+        if not I.valid(st, ok):
+            raise OutOfReach("zip over symbolic values of unknown type / different lengths")
+        return _for_symbolic(I, s, st, "tuple", a, ctx, elem_val=lambda x, i: TupV([Sym(x), Sym(vm.titem(b, i))]),
+                             spec_iter_text="zip")
     n = min(len(k) for k in known if k is not None)
     syms = []
     for a, k in zip(zargs, known):
@@ -248,7 +256,7 @@ def havoc_vars(I, st, names):
         st.env[n] = Sym(I.U.fresh(n))
 
 
-def _for_symbolic(I, s, st, skind, seq, ctx, elem_val=None):
+def _for_symbolic(I, s, st, skind, seq, ctx, elem_val=None, spec_iter_text=None):
     """Inductive rule over a symbolic sequence (heap list: Seq split `xs = pre ++ [x] ++ post`;
     tuple/list value: arbitrary index `0 <= i < len`, `x = item(i)`)."""
     from .spec import Prefix
@@ -288,6 +296,8 @@ def _for_symbolic(I, s, st, skind, seq, ctx, elem_val=None):
         pre, post = U.fresh_seq("pre"), U.fresh_seq("post")
         it.pc.append(seq == z3.Concat(pre, z3.Unit(x), post))
         for f in folds:
+            if f.indexed:
+                continue
             px = f.pred(x)
             it.pc.append(f.sfn(z3.Unit(x)) == px)
             it.pc.append(f.sfn(z3.Concat(pre, z3.Unit(x))) == z3.And(f.sfn(pre), px))
@@ -298,7 +308,7 @@ def _for_symbolic(I, s, st, skind, seq, ctx, elem_val=None):
         i = U.fresh_int("idx")
         it.pc += [i >= 0, i < vm.tlen(seq), x == vm.titem(seq, i)]
         for f in folds:
-            px = f.pred(x)
+            px = f.pred(x, i) if f.indexed else f.pred(x)
             it.pc.append(f.tfn(seq, 0))
             it.pc.append(f.tfn(seq, i + 1) == z3.And(f.tfn(seq, i), px))
             it.pc.append(z3.Implies(f.tfn(seq, vm.tlen(seq)), z3.And(px, f.tfn(seq, i))))   # ∀-elimination at i
@@ -310,7 +320,8 @@ def _for_symbolic(I, s, st, skind, seq, ctx, elem_val=None):
     brk, esc = [], []
     if I.feasible(it):
         if elem_val is not None:
-            ev_ = elem_val(x)
+            import inspect as _insp
+            ev_ = elem_val(x, i) if (skind == "tuple" and len(_insp.signature(elem_val).parameters) == 2) else elem_val(x)
             for sub in (ev_.items if isinstance(ev_, TupV) else [ev_]):
                 if isinstance(sub, Sym):
                     I.U.well_typed(sub.t)
